@@ -400,7 +400,7 @@ fn callee_is_keyword_literal(t: &T) -> bool {
 
 fn check_tree(run: &Run, label: &str, t: &T, names: &BTreeSet<String>, counters: &Counters) {
   let expected = to_ast(t);
-  let layouts = [Layout::Spaced, Layout::Compact, Layout::Double, Layout::NewlinesTabs, Layout::BlockComments, Layout::LineComments, Layout::EveryWhiteSpace];
+  let layouts = [Layout::Spaced, Layout::Compact, Layout::Double, Layout::NewlinesTabs, Layout::BlockComments, Layout::LineComments, Layout::EveryWhiteSpace, Layout::LongRuns];
   for mode in [Mode::Full, Mode::Minimal] {
     for layout in layouts {
       let text = render(t, mode, layout);
@@ -540,7 +540,7 @@ pub fn run() {
   //     of two tests, and the negated list
   {
     let d2t = depth2_trees();
-    let layouts = [Layout::Spaced, Layout::Compact, Layout::NewlinesTabs, Layout::BlockComments, Layout::EveryWhiteSpace];
+    let layouts = [Layout::Spaced, Layout::Compact, Layout::NewlinesTabs, Layout::BlockComments, Layout::EveryWhiteSpace, Layout::LongRuns];
     let check_ut = |key: String, text: String, expected: AstNode, t: Option<(&T, Layout)>| {
       let scope = parse_scope_of(&names);
       let r = std::panic::catch_unwind(std::panic::AssertUnwindSafe(|| parse_unary_tests(&scope, &text, false)));
@@ -737,7 +737,7 @@ pub fn run() {
   run.set("traces_validated_against_impl", json!(parses + lit_count + ut_count));
   run.set("evaluations", json!(parses + lit_count + ut_count));
   run.set("distinct_nontrivial", json!(distinct_texts.len()));
-  run.set("rule", json!("distinct minimal renderings of trees with at least one operator (depth-2: every constructor in every slot of every constructor; depth-3: every ordered triple along every slot of the outer and the middle constructor; sibling pairs: two slots of one constructor filled by every ordered pair; thorough adds depth-4 spines along the first / last slot); each is parsed in 2 parenthesisations x 7 layouts plus one text per needed parenthesis pair"));
+  run.set("rule", json!("distinct minimal renderings of trees with at least one operator (depth-2: every constructor in every slot of every constructor; depth-3: every ordered triple along every slot of the outer and the middle constructor; sibling pairs: two slots of one constructor filled by every ordered pair; thorough adds depth-4 spines along the first / last slot); each is parsed in 2 parenthesisations x 8 layouts plus one text per needed parenthesis pair"));
   run.set("exhaustive", json!(true));
   run.set("depth2_trees", json!(d2));
   run.set("depth3_spines", json!(d3));
